@@ -19,6 +19,8 @@ def plan(tier, seed, nshards=16):
         specs.append({'gen': 'rand', 'n': b - a, 'shard': i, 'seed': seed, 'tier': tier})
     for i, (a, b) in enumerate(split_range(ns, max(1, nshards // 4))):
         specs.append({'gen': 'straddle', 'n': b - a, 'shard': 100 + i, 'seed': seed, 'tier': tier})
+    if tier == 'thorough':
+        specs.append({'gen': 'h9', 'seed': seed, 'tier': tier})
     nx = 8 if tier == 'thorough' else 2
     for i in range(nx):
         specs.append({'gen': 'exh', 'part': i, 'parts': nx, 'exh': exh, 'shard': 200 + i,
@@ -46,8 +48,47 @@ def cases_of(spec):
                 yield c
 
 
+H9_TESTS = ['tests/test_expect.py', 'tests/test_misc.py', 'tests/test_unicode.py', 'tests/test_log.py',
+            'tests/test_popen_spawn.py', 'tests/test_filedescriptor.py', 'tests/test_run.py', 'tests/test_timeout_pattern.py']
+
+
+def run_h9(acc, prop):
+    """H9: the repository's own tests (real children, kernel-chosen chunking) under the passive monitors."""
+    import json
+    import os
+    import shutil
+    import subprocess
+    import sys
+    import tempfile
+    from .. import REPO, VERIF
+    tmp = tempfile.mkdtemp(prefix='pvmon-h9-')
+    try:
+        shutil.copytree('/repo/tests', os.path.join(tmp, 'tests'))
+        os.symlink(os.path.join(REPO, 'pexpect'), os.path.join(tmp, 'pexpect'))
+        out = os.path.join(tmp, 'h9.json')
+        env = dict(os.environ, PYTHONPATH=VERIF + os.pathsep + tmp, PVMON_H9_OUT=out)
+        cmd = [sys.executable, '-m', 'pytest', '-q', '-p', 'no:cacheprovider', '-p', 'pvmon.pytest_plugin', '--timeout=600',
+               '--deselect', 'tests/test_misc.py::TestCaseMisc::test_exception_tb'] + H9_TESTS
+        p = subprocess.run(cmd, cwd=tmp, env=env, stdout=subprocess.PIPE, stderr=subprocess.STDOUT, timeout=1500)
+        try:
+            rep = json.load(open(out))
+        except Exception:
+            acc.inconc('H9: no report (pytest said: %s)' % p.stdout.decode('utf-8', 'replace')[-300:])
+            return
+        for k, v in rep['counters'].items():
+            acc.count('h9_' + k, v)
+        acc.count('h9_runs')
+        for v in rep['violations']:
+            if v['property'] == prop:
+                acc.violation('h9:' + v['mechanism'], 'repository test under passive monitors: ' + v['detail'], {'h9': True})
+    finally:
+        shutil.rmtree(tmp, ignore_errors=True)
+
+
 def drive(spec, acc, make_oracle, on_case_end=None):
     """make_oracle(run, acc) -> callable(run, step) -> [(mechanism, detail)]"""
+    if spec.get('gen') == 'h9':
+        return run_h9(acc, spec.get('prop', 'C01'))
     hangs = 0
     for case in cases_of(spec):
         if hangs >= 4:
